@@ -7,7 +7,7 @@ if ! git diff --quiet; then echo "repo dirty"; exit 9; fi
 sed -i "$expr" "$file"
 if git diff --quiet; then echo "MUTATION DID NOT APPLY"; exit 8; fi
 git diff | grep '^[-+]' | grep -v '^+++\|^---'
-cd /verif && ./verif check "$prop" 2>&1 | grep -E "VIOLATION|INCONCLUSIVE|PASS|counterexample" | cut -c1-220
+cd /verif && VERIF_ONLY="${VERIF_ONLY:-}" ./verif check "$prop" 2>&1 | grep -E "VIOLATION|INCONCLUSIVE|PASS|counterexample" | cut -c1-220
 rc=${PIPESTATUS[0]}
 cd /repo && git checkout -- . 
 echo "rc=$rc"
